@@ -123,6 +123,15 @@ fn all_corruptions(base: &Base, rep: &mut Report) {
         }
     }
     rep.count("base_frames");
+    // is some proper suffix of the field bytes a valid frame of its own? (see base_frames)
+    let wire = refs::enc(base.addr, base.ty, &base.data);
+    if (3..=wire.len().saturating_sub(10)).step_by(2).any(|k| {
+        let mut tail = vec![b':'];
+        tail.extend_from_slice(&wire[k..]);
+        matches!(refs::dec(&tail), refs::Dec::Ok { .. })
+    }) {
+        rep.count("nested_base_frames");
+    }
     rep.seen("base_lengths", base.data.len() as u64);
 }
 
@@ -245,11 +254,11 @@ fn base_frames(ctx: &Ctx) -> Vec<Base> {
         v.push(Base { addr: a, ty: t, data: d.to_vec() });
     }
     let lens: &[usize] = &[0, 1, 2, 3, 4, 5, 6, 7, 8, 15, 16, 17, 32, 127, 254, 255];
-    let (per_len, extra_long) = if ctx.quick() { (3, 0) } else { (170, 200) };
+    let (per_len, extra_long) = if ctx.quick() { (12, 0) } else { (170, 200) };
     for &len in lens {
         for _ in 0..per_len {
             // long frames are expensive (523 x 256 substitutions): fewer of them in the quick tier
-            if ctx.quick() && len >= 127 && v.iter().filter(|b: &&Base| b.data.len() >= 127).count() >= 3 {
+            if ctx.quick() && len >= 127 && v.iter().filter(|b: &&Base| b.data.len() >= 127).count() >= 10 {
                 continue;
             }
             let data = match rng.below(4) {
@@ -258,6 +267,25 @@ fn base_frames(ctx: &Ctx) -> Vec<Base> {
                 _ => rng.bytes(len),
             };
             v.push(Base { addr: rng.edgy_u16(), ty: rng.edgy_u8(), data });
+        }
+    }
+    // "nested" frames: the tail of the frame, from some byte m on, is itself a complete valid frame (the bytes
+    // before m sum to 0 mod 256 and byte m is a correct length for what follows). A decoder that can be made to
+    // resynchronise inside the string (e.g. by one digit turning into ':') would accept the tail as a different frame.
+    for m in 2..=7usize {
+        for inner_len in 0..=3usize {
+            let mut inner = vec![inner_len as u8, rng.u8(), rng.u8(), rng.u8()];
+            inner.extend(rng.bytes(inner_len));
+            let total = m + inner.len();
+            let mut p: Vec<u8> = vec![(total - 4) as u8];
+            for _ in 1..m - 1 {
+                p.push(rng.u8());
+            }
+            let s: u32 = p.iter().map(|&b| u32::from(b)).sum();
+            p.push(((256 - s % 256) % 256) as u8);
+            let mut fields = p;
+            fields.extend(inner);
+            v.push(Base { addr: u16::from(fields[1]) << 8 | u16::from(fields[2]), ty: fields[3], data: fields[4..].to_vec() });
         }
     }
     for _ in 0..extra_long {
@@ -269,7 +297,7 @@ fn base_frames(ctx: &Ctx) -> Vec<Base> {
 
 pub fn run(ctx: &Ctx) -> Outcome {
     let bases = base_frames(ctx);
-    let n_gen = ctx.size(100_000, 10_000_000);
+    let n_gen = ctx.size(1_000_000, 10_000_000);
     let gen_shards = 32usize;
     let nb = bases.len();
     let report = run_sharded(ctx, nb + gen_shards, |shard, rep| {
@@ -297,6 +325,7 @@ pub fn run(ctx: &Ctx) -> Outcome {
     floors.push(floor("changed strings that still decode to the original (case change / terminator loss) observed", ok_orig > 0, ok_orig));
     floors.push(floor("wrong-length strings generated", report.get("wrong_length_strings") > 1000, report.get("wrong_length_strings")));
     floors.push(floor("wrong-checksum strings with every delta 1..=255", report.set_len("checksum_deltas") == 255, report.set_len("checksum_deltas")));
+    floors.push(floor("nested base frames (a suffix is itself a valid frame)", report.get("nested_base_frames") >= 20, report.get("nested_base_frames")));
     floors.push(floor("base frames of >= 12 distinct lengths incl. 255", report.set_len("base_lengths") >= 12, report.set_len("base_lengths")));
 
     let n_bases = report.get("base_frames");
